@@ -226,6 +226,9 @@ pub fn search(
     );
 
     ctx.tt.new_generation();
+
+    #[cfg(jgilchrist_tcheran_verif)]
+    crate::engine::util::verif::table_new_search(ctx.tt);
     ctx.history_table.decay(params::HISTORY_DECAY_FACTOR);
 
     let mut pv = PrincipalVariation::new();
